@@ -17,7 +17,14 @@
      totime <pil> <start> <tzhex|NULL> <zone> <now> <inj>
      win    <pil> <start> <tzhex|NULL> <zone> <now> <inj>
    <inj> = `-` or comma list of <site><k>: the k-th call of that site during the op fails.
-   <zone> is for the model only.  A leading `rec` token appends the libc answers. */
+   <zone> is for the model only.  A leading `rec` token appends the libc answers.
+
+   Harness-only probe (not part of the correspondence; validates the libc hypothesis
+   `Zone.FollowsOffsets` of lean/ZvbiModel/Pdc/Spec.lean):
+     mkrule <tzhex> <year> <mon 1..12> <mday> <hour> <min>
+   -> ok <t> <hit|gap> <shift>      the rule holds; shift = (local view of t) - (requested local time)
+      ok <t> BAD <which>            the rule is violated by this libc
+      ok fail                       mktime returned -1 */
 #include "hutil.h"
 #include <time.h>
 #include <stdarg.h>
@@ -183,6 +190,40 @@ static int parse_tz(const char *s, char **out)
 	return 1;
 }
 
+/* ---- mktime rule probe ---- */
+static int off_at(time_t x, long *off, struct tm *out)
+{
+	struct tm tm; memset(&tm, 0, sizeof tm);
+	if (!__real_localtime_r(&x, &tm)) return 0;
+	*off = tm.tm_gmtoff; if (out) *out = tm;
+	return 1;
+}
+static void mkrule(const char *tz, int y, int mon, int mday, int hour, int min)
+{
+	static const long dd[] = { 0, -3600, 3600, -7200, 7200, -10800, 10800, -86400, 86400, -172800, 172800 };
+	struct tm tm, lt, g; time_t t, L; long o, ot; size_t i; int hit = 0, gap_ok = 0;
+	__real_setenv("TZ", tz, 1); tzset();
+	memset(&tm, 0, sizeof tm);
+	tm.tm_year = y - 1900; tm.tm_mon = mon - 1; tm.tm_mday = mday; tm.tm_hour = hour; tm.tm_min = min; tm.tm_isdst = -1;
+	g = tm; g.tm_isdst = 0; L = timegm(&g);                      /* the requested local time as seconds */
+	t = __real_mktime(&tm);
+	if ((time_t) -1 == t) { printf("ok fail\n"); return; }
+	if (!off_at(t, &ot, &lt)) { printf("ok %lld BAD converts\n", (long long) t); return; }
+	/* localtime law: localtime_r (t) shows the civil time of t + off t */
+	{ time_t u = t + ot; struct tm gm; memset(&gm, 0, sizeof gm); __real_gmtime_r(&u, &gm);
+	  if (gm.tm_year != lt.tm_year || gm.tm_mon != lt.tm_mon || gm.tm_mday != lt.tm_mday || gm.tm_hour != lt.tm_hour
+	      || gm.tm_min != lt.tm_min || gm.tm_sec != lt.tm_sec) { printf("ok %lld BAD localtime\n", (long long) t); return; } }
+	for (i = 0; i < sizeof dd / sizeof *dd; ++i) {
+		long o2;
+		if (!off_at(t + dd[i], &o, NULL)) continue;
+		if (t + o == L) gap_ok = 1;                                /* gap rule witness t' = t + dd[i] */
+		if (off_at(L - o, &o2, NULL) && o2 == o) hit = 1;          /* the instant L - o shows local time L */
+	}
+	if (hit && t + ot != L) { printf("ok %lld BAD hit\n", (long long) t); return; }
+	if (!gap_ok) { printf("ok %lld BAD gap\n", (long long) t); return; }
+	printf("ok %lld %s %lld\n", (long long) t, hit ? "hit" : "gap", (long long)(t + ot - L));
+}
+
 static int in_int(long long v) { return v >= INT_MIN && v <= INT_MAX; }
 
 /* strict signed 64-bit parse (decimal or 0x hex, optional '-'); out-of-range -> 0 */
@@ -235,6 +276,12 @@ int main(void)
 			if (0 == strcmp(T(1), "unset")) { unsetenv("TZ"); tzset(); printf("ok\n"); }
 			else if (parse_tz(T(1), &tz) && tz) { __real_setenv("TZ", tz, 1); tzset(); printf("ok\n"); }
 			else printf("rej parse\n");
+		} else if (H_IS(o, "mkrule") && h_ntok == o + 7) {
+			long long y, mo, d, hh, mi;
+			if (parse_tz(T(1), &tz) && tz && NUMO(2, y) && NUMO(3, mo) && NUMO(4, d) && NUMO(5, hh) && NUMO(6, mi)
+			    && y > 1800 && y < 3000 && mo >= 1 && mo <= 12 && d >= 1 && d <= 31 && hh >= 0 && hh < 24 && mi >= 0 && mi < 60) {
+				mkrule(tz, (int) y, (int) mo, (int) d, (int) hh, (int) mi);   /* leaves TZ set; `case` resets it */
+			} else printf("rej parse\n");
 		} else if (H_IS(o, "valid") && h_ntok == o + 2) {
 			if (NUMO(1, pil) && pil >= 0 && pil <= 0xFFFFFFFFLL) printf("ok %d\n", vbi_pil_is_valid_date((vbi_pil) pil) ? 1 : 0);
 			else printf("rej parse\n");
